@@ -134,10 +134,10 @@ class World:
                         todo.extend(iv.refs)
         return seen
 
-    def _is_objecty(self, heap, v: Val):
+    def _is_objecty(self, heap, v: Val, containers=False):
         for r in v.refs:
             cls = heap.objs[r].cls
-            if cls and cls not in CONTAINER_CLS:
+            if cls and (containers and cls != "tuple" or cls not in CONTAINER_CLS):
                 return True
         return False
 
@@ -153,7 +153,8 @@ class World:
             for f in list(o.fields):
                 if (o.cls, f) in self.forget:
                     v = o.fields[f]
-                    if self._is_objecty(heap, v):
+                    if self._is_objecty(heap, v, containers=True):
+                        # type invariance: the location keeps holding objects of the classes it was built with
                         o.fields[f] = Val(refs=v.refs, deps=[(oid, ("." + f,))], tags=["forgotten"])
                     else:
                         o.fields[f] = Val(refs=v.refs, locs=[(oid, ("." + f,))], deps=[(oid, ("." + f,))],
